@@ -110,13 +110,25 @@ pub proof fn lemma_climb_step(it: flat_tree::Iterator, root: u64)
     requires climbing(it, root), it.index != root
     ensures it.d@ < depth_of(root), it.index + 2 * it.factor <= 0x7fff_ffff_ffff_ffff, it.index + it.factor < 0x1_0000_0000_0000, it.index + it.factor < root + 0x1000_0000_0000,
         anc(it.d@ + 1, (it.offset / 2) as int, depth_of(root), offset_of(root)),
-        it.offset % 2 == 0 ==> (it.offset + 1) / 2 == it.offset / 2, it.offset % 2 == 1 ==> (it.offset - 1) / 2 == it.offset / 2
+        it.offset % 2 == 0 ==> (it.offset + 1) / 2 == it.offset / 2, it.offset % 2 == 1 ==> (it.offset - 1) / 2 == it.offset / 2,
+        // the sibling stays inside the span of the root
+        it.index < root + p2(depth_of(root)), it.offset % 2 == 0 ==> it.index + it.factor < root + p2(depth_of(root))
 {
     let dr = depth_of(root); let or = offset_of(root);
     if it.d@ == dr { flat_tree::lemma_anc_top(it.offset as int, dr, or); }
     flat_tree::lemma_anc_span(it.d@, it.offset as int, dr, or);
     flat_tree::lemma_p2_4x(); flat_tree::lemma_p2_mono(dr, 43); flat_tree::lemma_p2_mono(it.d@ + 1, dr);
     flat_tree::lemma_anc_step(it.d@, it.offset as int, dr, or);
+    if it.offset % 2 == 0 {
+        // the right sibling has the same parent, so it is inside the root's subtree too
+        let pp = p2((dr - it.d@ - 1) as nat);
+        assert(p2((dr - it.d@) as nat) == 2 * pp);
+        assert(or * (2 * pp) == 2 * (or * pp)) by (nonlinear_arith);
+        assert((or + 1) * (2 * pp) == 2 * ((or + 1) * pp)) by (nonlinear_arith);
+        assert(anc(it.d@, it.offset + 1, dr, or));
+        flat_tree::lemma_anc_span(it.d@, it.offset + 1, dr, or);
+        assert((it.offset + 1) * p2(it.d@ + 1) == it.offset * p2(it.d@ + 1) + p2(it.d@ + 1)) by (nonlinear_arith);
+    }
 }
 pub proof fn lemma_climb_start(it: flat_tree::Iterator, root: u64)
     requires it.wf(), anc_idx(it.index, root), depth_of(root) <= 43, root < 0x8000_0000_0000
@@ -183,4 +195,152 @@ impl MerkleTree {
             flat_tree::lemma_p2_4x(); flat_tree::lemma_p2_mono(iter.d@, 43);
         }
     @*/
+
+    /*@ fn src/tree/merkle_tree.rs MerkleTree::additional_upgrade_proof
+    tags: C09 C03
+    result: r
+    requires:
+        self.t_wf(), from % 2 == 0, to % 2 == 0, to < 0x400_0000_0000
+    ensures:
+        final(p).nodes == old(p).nodes, final(p).seek == old(p).seek, final(p).upgrade == old(p).upgrade
+    first:
+        let ghost mut gl: int = 0;
+        let ghost mut ga: nat = 61;
+    before `let mut has_full_root = iter.full_root(to);`:
+        proof { flat_tree::lemma_p2_62(); assert(flat_tree::leaf_aligned(0, 61, to as int)); }
+    loop 1:
+        invariant
+            self.t_wf(), from % 2 == 0, to % 2 == 0, to < 0x400_0000_0000, *p == *old(p),
+            !has_additional_upgrade ==> from >= 2,
+            has_full_root ==> full_root_at(iter, gl, ga, to), gl <= to
+        decreases to - gl
+    before `iter.next_tree();`#1:
+        proof { lemma_next_tree(iter, gl, ga, to); ga = iter.d@; gl = gl + p2(iter.d@ + 1); }
+    before `iter.next_tree();`#2:
+        proof { flat_tree::lemma_node_of(iter); assert(iter == it_root); lemma_next_tree(iter, gl, ga, to); ga = iter.d@; gl = gl + p2(iter.d@ + 1); }
+    before `iter.next_tree();`#3:
+        proof { lemma_next_tree(iter, gl, ga, to); ga = iter.d@; gl = gl + p2(iter.d@ + 1); }
+    before `if !has_additional_upgrade && iter.contains(from - 2) {`:
+        proof { lemma_full_root_small(iter, gl, ga, to); }
+    before `iter.seek(target);`:
+        let ghost it_root = iter;
+        proof {
+            // iter.contains(from - 2): the last leaf the peer already has lies below this root
+            flat_tree::lemma_node_of(iter);
+            assert(p2(0) == 1 && p2(1) == 2) by { reveal_with_fuel(flat_tree::p2, 3); }
+            assert(node_index(0, (target / 2) as int) == target);
+            flat_tree::lemma_span_anc(0, (target / 2) as int, iter.d@, iter.offset as int);
+        }
+    after `iter.seek(target);`:
+        proof { flat_tree::lemma_node_of(iter); lemma_climb_start(iter, root); }
+    loop 2:
+        invariant
+            climbing(iter, root), self.t_wf(), *p == *old(p)
+        decreases depth_of(root) - iter.d@
+    before `iter.sibling();`:
+        proof { lemma_climb_step(iter, root); }
+    before `let node_or_instruction = self.required_node(iter.index(), nodes)?;`#2:
+        proof { lemma_full_root_small(iter, gl, ga, to); }
+    @*/
+
+    /*@ fn src/tree/merkle_tree.rs MerkleTree::upgrade_proof
+    tags: C09 C03
+    result: r
+    requires:
+        self.t_wf(), from % 2 == 0, to % 2 == 0, to < 0x400_0000_0000, sub_tree < 0x8000_0000_0000,
+        indexed is Some ==> indexed->Some_0.index < 0x400_0000_0000,
+        // the block / hash request is served inside this upgrade only from its own node
+        indexed is Some && old(p).nodes is None ==> sub_tree == indexed->Some_0.index
+    ensures:
+        final(p).additional_upgrade == old(p).additional_upgrade,
+        // C09: the upgrade section is always produced for a non-empty range (create_valueless_proof relies on it)
+        r is Ok && from < to ==> final(p).upgrade is Some
+    sub `instructions\.extend\((\w+)\);` => `vp_extend(&mut instructions, \1);`
+    first:
+        let ghost mut gl: int = 0;
+        let ghost mut ga: nat = 61;
+    before `let mut has_full_root = iter.full_root(to);`:
+        proof { flat_tree::lemma_p2_62(); assert(flat_tree::leaf_aligned(0, 61, to as int)); }
+    loop 1:
+        invariant
+            self.t_wf(), from % 2 == 0, to % 2 == 0, to < 0x400_0000_0000, sub_tree < 0x8000_0000_0000,
+            indexed is Some ==> indexed->Some_0.index < 0x400_0000_0000,
+            indexed is Some && p.nodes is None ==> sub_tree == indexed->Some_0.index,
+            p.additional_upgrade == old(p).additional_upgrade,
+            !has_upgrade ==> from >= 2 && gl <= from,
+            has_full_root ==> full_root_at(iter, gl, ga, to), gl <= to,
+            !has_full_root ==> gl >= to
+        decreases to - gl
+    before `iter.next_tree();`#1:
+        proof { lemma_full_root_small(iter, gl, ga, to); lemma_next_tree(iter, gl, ga, to); ga = iter.d@; gl = gl + p2(iter.d@ + 1); }
+    before `iter.next_tree();`#2:
+        proof { flat_tree::lemma_node_of(iter); assert(iter == it_root); lemma_next_tree(iter, gl, ga, to); ga = iter.d@; gl = gl + p2(iter.d@ + 1); }
+    before `iter.next_tree();`#3:
+        proof { lemma_next_tree(iter, gl, ga, to); ga = iter.d@; gl = gl + p2(iter.d@ + 1); }
+    before `iter.next_tree();`#4:
+        proof { lemma_next_tree(iter, gl, ga, to); ga = iter.d@; gl = gl + p2(iter.d@ + 1); }
+    before `if !has_upgrade && iter.contains(from - 2) {`:
+        proof { lemma_full_root_small(iter, gl, ga, to); }
+    before `iter.seek(target);`:
+        let ghost it_root = iter;
+        proof {
+            flat_tree::lemma_node_of(iter);
+            assert(p2(0) == 1 && p2(1) == 2) by { reveal_with_fuel(flat_tree::p2, 3); }
+            assert(node_index(0, (target / 2) as int) == target);
+            flat_tree::lemma_span_anc(0, (target / 2) as int, iter.d@, iter.offset as int);
+        }
+    after `iter.seek(target);`:
+        proof { flat_tree::lemma_node_of(iter); lemma_climb_start(iter, root); }
+    loop 2:
+        invariant
+            climbing(iter, root), self.t_wf(), root < 0x400_0000_0000, root + p2(depth_of(root)) <= 0x800_0000_0000, sub_tree < 0x8000_0000_0000,
+            indexed is Some ==> indexed->Some_0.index < 0x400_0000_0000,
+            indexed is Some && p.nodes is None ==> sub_tree == indexed->Some_0.index,
+            p.additional_upgrade == old(p).additional_upgrade
+        decreases depth_of(root) - iter.d@
+    before `iter.sibling();`:
+        proof { lemma_climb_step(iter, root); }
+    before `let success_or_instructions =`#1:
+        proof { lemma_contains_anc(iter, sub_tree); }
+    before `let success_or_instructions =`#2:
+        proof { lemma_contains_anc(iter, sub_tree); }
+    @*/
+}
+
+/// `iter.contains(x)` for a node index x: x lies in the subtree iter is on
+pub proof fn lemma_contains_anc(it: flat_tree::Iterator, x: u64)
+    requires it.wf(), it.spans(x as int), it.index < 0x800_0000_0000
+    ensures anc_idx(x, it.index), depth_of(it.index) <= 43
+{
+    flat_tree::lemma_node_of(it);
+    flat_tree::lemma_node_of_index(x);
+    flat_tree::lemma_span_anc(depth_of(x), offset_of(x), it.d@, it.offset as int);
+    flat_tree::lemma_p2_4x();
+    flat_tree::lemma_depth_bound(it, 43);
+}
+
+/// the iterator sits on the full root found from leaf `gl` (aligned for 2^(ga+1) leaves) below `to`
+pub open spec fn full_root_at(it: flat_tree::Iterator, gl: int, ga: nat, to: u64) -> bool {
+    &&& it.wf() && gl >= 0 && flat_tree::leaf_aligned(gl, ga, to as int)
+    &&& it.index == gl + p2(it.d@) - 1 && gl + p2(it.d@ + 1) <= to && to < gl + p2(it.d@ + 2)
+}
+pub proof fn lemma_full_root_small(it: flat_tree::Iterator, gl: int, ga: nat, to: u64)
+    requires full_root_at(it, gl, ga, to), to < 0x400_0000_0000
+    ensures it.d@ <= 41, it.index < to, it.factor <= to, it.index + it.factor <= 0x3fff_ffff_ffff_ffff, it.index + it.factor / 2 == gl + p2(it.d@ + 1) - 1,
+        it.index + p2(it.d@) <= to
+{
+    flat_tree::lemma_p2_4x(); flat_tree::lemma_p2_pos(it.d@);
+    if it.d@ + 1 > 42 { flat_tree::lemma_p2_mono(42, it.d@ + 1); }
+}
+/// stepping to the next tree keeps the alignment the next full_root call needs, and makes progress
+pub proof fn lemma_next_tree(it: flat_tree::Iterator, gl: int, ga: nat, to: u64)
+    requires full_root_at(it, gl, ga, to), to < 0x400_0000_0000
+    ensures flat_tree::leaf_aligned(gl + p2(it.d@ + 1), it.d@, to as int), it.index + it.factor <= 0x3fff_ffff_ffff_ffff,
+        it.index + p2(it.d@) + 1 == gl + p2(it.d@ + 1), p2(it.d@ + 1) >= 2, gl + p2(it.d@ + 1) <= to, (gl + p2(it.d@ + 1)) % 2 == 0
+{
+    lemma_full_root_small(it, gl, ga, to);
+    flat_tree::lemma_next_aligned(gl, ga, it.d@, to as int);
+    flat_tree::lemma_p2_pos(it.d@);
+    vstd::arithmetic::div_mod::lemma_mod_mod(gl + p2(it.d@ + 1), 2, p2(it.d@));
+    assert(p2(it.d@ + 1) == 2 * p2(it.d@));
 }
